@@ -27,6 +27,12 @@ DB_EXEC2 = ("import numpy as np\nfrom pkg import b\nfrom n import b\nfrom qq imp
             "from n import e\nimport osx\nfrom m import d\nfrom qq.sub import d\nimport pkg.sub as f\n")
 
 
+# a third universe: identifiers with combining marks / U+00B7 as missing names, 3- and 4-byte characters in strings
+U_NAM, U_PAR = "\u0928\u093e\u092e", "paral\u00b7lel"
+DB_EXEC_U = DB_EXEC + "import %s\nfrom pkg import %s\n" % (U_NAM, U_PAR)
+U_STR = ["\u65e5\u672c\u8a9e", "\u20ac", "\u201cq\u201d", "\U0001f600", "\U0001d4b3"]
+
+
 def db_index(dbtext):
     """local name -> list of full names the database offers for it; read with stdlib ast, not with pyflyby."""
     idx = {}
@@ -56,7 +62,7 @@ UNIQUE = {"np": ("numpy", "np"), "osx": ("osx", "osx"), "b": ("pkg.b", "b"), "c"
           "f": ("pkg.sub", "f")}
 AMBIG = {"e"}
 UNKNOWN = {"g", "zz", "pkg", "aa"}          # `import pkg.util` / `import aa.bb` are looked up by first component only
-ROOTS = ("numpy", "osx", "pkg", "m", "n", "aa", "qq")
+ROOTS = ("numpy", "osx", "pkg", "m", "n", "aa", "qq", "\u0928\u093e\u092e")
 LOCALS = ["v1", "v2", "v3"]
 
 
@@ -78,8 +84,9 @@ def existing_import(r):
                      "from qq.sub import zq4", "from pkg import zq5"])
 
 
-def gen_exec(r):
+def gen_exec(r, uni=False):
     lines = []
+    pool = (list(UNIQUE) * 2 + [U_NAM, U_PAR] * 3 + list(AMBIG) + ["g", "zz"] + LOCALS) if uni else None
     k = r.random()
     if k < .2:
         lines.append('"""doc"""')
@@ -94,36 +101,44 @@ def gen_exec(r):
     defs = []
     for _ in range(r.randint(2, 8)):
         k = r.random()
+        if uni and r.random() < .35:
+            s = r.choice(U_STR)
+            lines.append(r.choice(['v1 = "%s"; %s; v2 = %s' % (s, existing_import(r), use(r, pool)),
+                                   '%s  # %s' % (existing_import(r), s),
+                                   'v3 = "%s"; %s  # %s' % (s, use(r, pool), s),
+                                   '"%s"; %s' % (s, existing_import(r)),
+                                   '%s; v1 = "%s"' % (use(r, pool), s)]))
+            continue
         if k < .25:
             for _ in range(r.randint(1, 3)):
                 lines.append(existing_import(r) + ("  # note" if r.random() < .1 else ""))
         elif k < .45:
-            lines.append("%s = %s" % (r.choice(LOCALS), use(r)))
+            lines.append("%s = %s" % (r.choice(LOCALS), use(r, pool)))
         elif k < .55:
-            lines.append(use(r))
+            lines.append(use(r, pool))
         elif k < .65:
             fn = "fn%d" % len(defs)
             defs.append(fn)
-            lines += ["def %s(p=1):" % fn, "    q = %s" % use(r), "    return %s" % use(r)]
+            lines += ["def %s(p=1):" % fn, "    q = %s" % use(r, pool), "    return %s" % use(r, pool)]
         elif k < .72:
             # (a read in a class body proper bypasses the recording globals dict: only methods read names)
             kn = "K%d" % len(lines)
-            lines += ["class %s:" % kn, "    z = 1", "    def meth(self):", "        return %s" % use(r)]
+            lines += ["class %s:" % kn, "    z = 1", "    def meth(self):", "        return %s" % use(r, pool)]
             defs.append(kn + "().meth")
         elif k < .80:
-            a = r.choice([use(r), "v1 = 1", existing_import(r)])
-            b = r.choice([existing_import(r), use(r)])
+            a = r.choice([use(r, pool), "v1 = 1", existing_import(r)])
+            b = r.choice([existing_import(r), use(r, pool)])
             lines.append("%s; %s" % (a, b))
             if r.random() < .3:
                 lines += ["if v1:", "    pass"]
         elif k < .86:
-            lines += ["if %s:" % r.choice(LOCALS), "    %s" % use(r), "else:", "    pass"]
+            lines += ["if %s:" % r.choice(LOCALS), "    %s" % use(r, pool), "else:", "    pass"]
         elif k < .91:
-            lines.append("v2 = (%s +\n      %s)" % (use(r), use(r)))
+            lines.append("v2 = (%s +\n      %s)" % (use(r, pool), use(r, pool)))
         elif k < .95:
             lines.append(r.choice(["", "# comment", "    # indented comment"]))
         else:
-            lines.append("v3 = [%s for i in [1, 2]]" % use(r))
+            lines.append("v3 = [%s for i in [1, 2]]" % use(r, pool))
     # function bodies run after the last module-level statement (the domain of the scope analysis, DESIGN C02/C05)
     lines += ["%s()" % fn for fn in defs if r.random() < .7]
     src = "\n".join(lines)
@@ -136,8 +151,9 @@ def gen_cases(ctx, n):
     cases = []
     for i in range(n):
         r = cm.rng(ctx.seed, "c04", i)
+        uni = r.random() < .2
         for _ in range(30):
-            src = gen_exec(r)
+            src = gen_exec(r, uni)
             if S.compilable(src):
                 break
         else:
@@ -147,7 +163,9 @@ def gen_cases(ctx, n):
         if k == 7:
             fl = S.gen_flags(r)
         db = r.choice([DB_EXEC, DB_EXEC, DB_EXEC_MAND, DB_EXEC_MAND2, DB_EXEC2, DB_EXEC2])
-        c = {"kind": "tidy", "stream": "exec", "i": i, "src": src, "db": db, "flags": fl, "params": r.choice(S.PARAMS)}
+        if uni:
+            db = DB_EXEC_U
+        c = {"kind": "tidy", "stream": "exec-unicode" if uni else "exec", "i": i, "src": src, "db": db, "flags": fl, "params": r.choice(S.PARAMS)}
         if k == 8:
             c["filename"] = r.choice(["/nonexistent-verif/pkgdir/__init__.py", "/nonexistent-verif/.pyflyby/x.py",
                                       "/nonexistent-verif/pkgdir/mod.py"])
@@ -174,6 +192,8 @@ WITNESSES = [
      "flags": {"add_missing": True, "remove_unused": True, "add_mandatory": False}, "params": None},
     # never_guess on a file that already imports from one candidate's module
     {"kind": "tidy", "stream": "witness", "w": "guess", "src": "from n import zq2\nzq2\ne.x\nb.y\n", "db": DB_EXEC2,
+     "flags": {"add_missing": True, "remove_unused": True, "add_mandatory": False}, "params": None},
+    {"kind": "tidy", "stream": "witness", "w": "utf8", "src": 'v1 = "\u65e5\u672c\u8a9e"; import qq; v2 = %s.x  # \U0001f600\n%s.y\n' % (U_NAM, U_PAR), "db": DB_EXEC_U,
      "flags": {"add_missing": True, "remove_unused": True, "add_mandatory": False}, "params": None},
     # F23: unused import in a block that starts on the line where the previous block's text ends
     {"kind": "tidy", "stream": "witness", "w": "F23", "src": "import qq\nv1 = 1; import zz\nqq\n", "db": DB_EXEC,
@@ -404,7 +424,7 @@ def check_cases(ctx, cases, tag="tidy"):
 
 
 def run(ctx):
-    n = int(os.environ.get("VERIF_N", 800 if ctx.quick else 20000))
+    n = int(os.environ.get("VERIF_N", 800 if ctx.quick else 15000))
     ctx.coverage["rule"] = ("executable generated modules (prologues, imports before / between / after uses, `;` lines, defs, "
                             "classes, multi-line expressions) x databases over a synthetic universe (unique / ambiguous / absent / "
                             "dotted entries / aliases / mandatory __future__) x flag combinations (10%) x __init__.py/.pyflyby paths (10%); "
